@@ -310,7 +310,7 @@ func c13Bound(full time.Duration) time.Duration {
 }
 
 const c13CallBound = 5 * time.Second
-const c13CaseBound = 150 * time.Second
+const c13CaseBound = 90 * time.Second
 
 // c13Timed runs fn in a goroutine; false = fn did not return within the bound (fn is abandoned).
 // A panic inside fn is re-raised in the caller's goroutine (so vCatch sees it).
@@ -935,7 +935,14 @@ func c13Conc(c c13Case, res map[string]any, f *c13Fail, rs int64) {
 	for s := 0; s < 2; s++ {
 		close(u[s].done)
 	}
-	rwg.Wait()
+	if returned, waited := c13Timed(c13Bound(c13CallBound), rwg.Wait); !returned {
+		f.add("concurrent ReadFrom calls did not return within %s after the sockets below had failed with net.ErrClosed", waited)
+		rmu.Lock() // the abandoned readers may still append: work on a snapshot
+		for s := 0; s < 2; s++ {
+			recvd[s] = append([]got{}, recvd[s]...)
+		}
+		rmu.Unlock()
+	}
 	if badN.Load() != 0 {
 		f.add("%d concurrent WriteTo calls reported an error or a wrong count", badN.Load())
 	}
